@@ -32,3 +32,13 @@ pub fn normalize(p: PathBuf) -> PathBuf {
     }
     out
 }
+
+/// Normalize an absolute path. A relative path is returned as is, its leading
+/// `..` components can not be resolved without knowing what it is relative to.
+pub fn normalize_absolute(p: PathBuf) -> PathBuf {
+    if p.is_absolute() {
+        normalize(p)
+    } else {
+        p
+    }
+}
